@@ -342,7 +342,7 @@ func genCodecs(g *gen, r *vlib.Rand) {
 		g.add(vlib.Line(vlib.Atom("u16enc"), runesSx(rr)))
 	}
 	// random strings
-	n := vlib.Count(g.tier, 300, 6000)
+	n := vlib.Count(g.tier, 800, 20000)
 	for i := 0; i < n; i++ {
 		l := r.Intn(40)
 		if r.Chance(1, 20) {
